@@ -40,8 +40,12 @@ class Checker:
     def roundtrip(self, d, payload, nbytes, classes=()):
         ctx = self.ctx
         case = {"definition": d.key, "payload_hex": payload.to_bytes(nbytes, "little").hex(), "classes": list(classes)}
+        from ..common import HangDetected, hang_guard
         try:
-            msg = self.dec.decode_basic_string(gen.basic_string(d.pgn, payload, nbytes), already_combined=True)
+            with hang_guard(20.0):
+                msg = self.dec.decode_basic_string(gen.basic_string(d.pgn, payload, nbytes), already_combined=True)
+        except HangDetected:
+            return [(f"C02|never-returns|{d.key}", "the decoder did not return within 20 s of real time", case)]
         except Exception:
             ctx.klass("rejected")
             return []
